@@ -16,6 +16,7 @@ validity hypothesis and no size bound.
 * `C02_point`                 `Point.Within` = `withinSpec` (OnEdge clause and even-odd clause of the property).
 * `C02_point_no_panic`        `pgBounds[i]` never faults.
 * `C02_receivers_points`, `C02_receivers_multiline`, `C02_receivers_polygon`   receivers clause.
+* `C02_closed_spelling`       closed and unclosed spelling of a ring give the same answer (implicit closing segment).
 -/
 set_option linter.unusedSimpArgs false
 namespace GeomV.C02
@@ -165,6 +166,39 @@ theorem C02_receivers_polygon (p : Poly) (pg : Polygonal) :
     · simp [h2]
     · simp [h2]
 
+/-! ### spelling of rings -/
+
+theorem pairs_append_singleton : ∀ (h : P) (t : List P) (last x : P), (h :: t).getLast? = some last →
+    Spec.pairs ((h :: t) ++ [x]) = Spec.pairs (h :: t) ++ [(last, x)]
+  | h, [], last, x, hl => by simp at hl; subst hl; simp [Spec.pairs]
+  | h, b :: t, last, x, hl => by
+    rw [List.getLast?_cons_cons] at hl
+    have ih := pairs_append_singleton b t last x hl
+    simp only [List.cons_append, Spec.pairs] at ih ⊢
+    rw [ih]
+
+/-- the closed spelling of an unclosed ring has exactly the same boundary segments -/
+theorem segments_closed_spelling (first last : P) (t : List P) (h3 : 3 ≤ (first :: t).length)
+    (hl : (first :: t).getLast? = some last) (hne : last ≠ first) :
+    Spec.segments ((first :: t) ++ [first]) = Spec.segments (first :: t) := by
+  rw [segments_eq first last t h3 hl]
+  have hl' : (first :: (t ++ [first])).getLast? = some first := by
+    rw [← List.cons_append, List.getLast?_append]; rfl
+  have h3' : 3 ≤ (first :: (t ++ [first])).length := by simp at h3 ⊢; omega
+  have := segments_eq first first (t ++ [first]) h3' hl'
+  rw [List.cons_append, this, ← List.cons_append, pairs_append_singleton first t last first hl]
+  simp [hne]
+
+/-- [implicit closing segment] spelling a ring closed (repeating its first vertex) or unclosed gives the
+same `Point.Within` answer, whatever else the polygon contains. -/
+theorem C02_closed_spelling (pt first last : P) (t : List P) (pre post : List Ring)
+    (h3 : 3 ≤ (first :: t).length) (hl : (first :: t).getLast? = some last) (hne : last ≠ first) :
+    pointInPolygonal pt (.polygon (pre ++ ((first :: t) ++ [first]) :: post)) =
+    pointInPolygonal pt (.polygon (pre ++ (first :: t) :: post)) := by
+  rw [C02_point, C02_point]
+  simp only [Polygonal.polygons, Spec.withinSpec, Spec.allSegments, List.flatMap_cons, List.flatMap_nil,
+    List.append_nil, List.flatMap_append, segments_closed_spelling first last t h3 hl hne]
+
 /-! ### non-vacuity and the quirks the theorems talk about, on concrete values -/
 
 /-- the NaN quirk is real: the start point of a non-vertical segment is not detected by `pointOnSegment`… -/
@@ -177,6 +211,9 @@ example : pointInPolygonal ⟨0, 1/2⟩ (.polygon [[⟨0, 0⟩, ⟨1, 1⟩, ⟨0
 example : pointInPolygonal ⟨1, 1⟩ (.polygon [[⟨0, 0⟩, ⟨4, 0⟩, ⟨4, 4⟩, ⟨0, 4⟩], [⟨1/2, 1/2⟩, ⟨2, 1/2⟩, ⟨2, 2⟩, ⟨1/2, 2⟩]])
     = .ok .outside := by decide +kernel
 example : pointInPolygonal ⟨1, 1⟩ (.polygon [[⟨0, 0⟩, ⟨2, 2⟩, ⟨2, 0⟩, ⟨0, 2⟩]]) = .ok .onEdge := by decide +kernel
+/-- hypotheses of `C02_closed_spelling` are satisfiable -/
+example : 3 ≤ ([⟨0, 0⟩, ⟨1, 1⟩, ⟨0, 1⟩] : List P).length ∧ ([⟨0, 0⟩, ⟨1, 1⟩, ⟨0, 1⟩] : List P).getLast? = some ⟨0, 1⟩ ∧
+    (⟨0, 1⟩ : P) ≠ ⟨0, 0⟩ := by decide +kernel
 /-- hypothesis of `C02_bbox_prefilter_sound` is satisfiable -/
 example : (newBounds.extendPoints [⟨0, 0⟩, ⟨1, 1⟩, ⟨0, 1⟩]).overlaps (newBoundsPoint ⟨-1, 1/2⟩) = false := by
   decide +kernel
